@@ -1,10 +1,12 @@
 (* Links between the client-side and server-side models at the level of bytes on the wire. *)
 From JV Require Import Base.Bytes Base.Utf8 Json.Json Json.JsonSer Json.JsonParse Model.Wire Model.Server Proofs.WireFacts.
 
-Lemma parse_request_classify t r : parse_request t = Some r -> classify t = Call r.
+(* parse_request also reads the sequence form of a Request; the server's classifier is only ever applied to texts
+   that start with '{' (Model/Server.v), where both take the map form *)
+Lemma parse_request_classify t s1 r : skip_ws t = x7b :: s1 -> parse_request t = Some r -> classify t = Call r.
 Proof.
-  unfold parse_request, classify. destruct (object_members t) as [m |]; [| discriminate].
-  intros ->. reflexivity.
+  intros E H. destruct (de_struct_some_object _ _ _ _ _ E H) as (m & Hm & Hr).
+  unfold classify. rewrite Hm, Hr. reflexivity.
 Qed.
 
 (* what a jsonrpsee client puts on the wire for a call is, for the server, a call with the same id, method and params *)
@@ -12,13 +14,18 @@ Theorem client_request_is_a_call r :
   wf_id (rq_id r) -> utf8_valid (rq_method r) = true ->
   match rq_params r with Some p => raw_payload p /\ nonnull p | None => True end ->
   classify (ser_request r) = Call r.
-Proof. intros Hi Hm Hp. apply parse_request_classify, request_roundtrip; assumption. Qed.
-
-Lemma parse_notification_classify t me p :
-  parse_request t = None -> parse_notification t = Some (me, p) -> classify t = Notif.
 Proof.
-  unfold parse_request, parse_notification, classify. destruct (object_members t) as [m |]; [| discriminate].
-  intros -> ->. reflexivity.
+  intros Hi Hm Hp. apply (parse_request_classify _ (ser_mems (request_members r))).
+  - rewrite ser_request_eq. reflexivity.
+  - apply request_roundtrip; assumption.
+Qed.
+
+Lemma parse_notification_classify t s1 me p :
+  skip_ws t = x7b :: s1 -> parse_request t = None -> parse_notification t = Some (me, p) -> classify t = Notif.
+Proof.
+  intros E Hr Hn. destruct (de_struct_some_object _ _ _ _ _ E Hn) as (m & Hm & Hn').
+  unfold parse_request in Hr. rewrite (de_struct_object _ _ _ _ Hm) in Hr.
+  unfold classify. rewrite Hm, Hr, Hn'. reflexivity.
 Qed.
 
 (* a client notification (no id member) is, for the server, a notification: it is never answered *)
@@ -26,8 +33,9 @@ Theorem client_notification_is_a_notification me p :
   utf8_valid me = true -> match p with Some p' => raw_payload p' /\ nonnull p' | None => True end ->
   classify (ser_notification me p) = Notif.
 Proof.
-  intros Hm Hp. apply (parse_notification_classify _ me p).
-  - unfold parse_request. rewrite ser_notification_eq, object_members_ser.
+  intros Hm Hp. apply (parse_notification_classify _ (ser_mems (notification_members me p)) me p).
+  - rewrite ser_notification_eq. reflexivity.
+  - unfold parse_request. rewrite ser_notification_eq, de_struct_ser_object.
     + unfold notification_members, as_request. reflexivity.
     + unfold notification_members.
       constructor; [split; [reflexivity | apply span_ok_two]|].
